@@ -126,14 +126,15 @@ def constants_compared(t, acc):
 def print_rules(chk, F):
     for field in tables.DIM_FIELDS:
         cls = "PhQ::Dimension::" + CLASS_OF[field]
-        fs = F.methods(cls, "Print")
+        fs = quant.find_method(F, cls, "Print", lambda g: not g["params"] and "body" in g)   # possibly inherited from a helper base
         if len(fs) != 1:
             chk.inconclusive("R3", cls + "::Print", "method not found", "")
             continue
         f = fs[0]
         try:
             E = ev.Evaluator(F)
-            r, _, _ = E.run_symbolic(f)
+            this = E.new_loc(E.symbolic(cls, "self"), "this")
+            r = E.rv(E.call(f["id"], this, []))
             consts = set()
             constants_compared(r, consts)
             if not consts <= {0, 1}:
@@ -169,6 +170,8 @@ def print_rules(chk, F):
                 def hook(E_, fn, this_lv, args, field=field, nonempty=nonempty):
                     return ev.Str([("nonempty", field)]) if nonempty else ev.Str([])
                 E.hooks["PhQ::Dimension::%s::Print" % CLASS_OF[field]] = hook
+                for g in quant.find_method(F, "PhQ::Dimension::" + CLASS_OF[field], "Print", lambda g_: not g_["params"]):
+                    E.hooks[g.get("qname", g["name"])] = hook      # Print() inherited from a helper base
             r, _, _ = E.run_symbolic(f)
             parts = []
             for field, nonempty in zip(tables.DIM_FIELDS, pattern):
